@@ -40,6 +40,20 @@
 //     exported snapshot (read after the last call) and on the span object
 //     itself through the ReadWriteSpan handed to OnStart (kinds live_*).
 //   - Timestamps are compared only when the caller supplied them.
+//   - "the operations applied to it" are the calls as the caller made them,
+//     with the key-values the caller built. The caller owns its argument
+//     slices: it may pass the same slice object to a second call on the same
+//     span and to the span of another TracerProvider (the sibling, with its
+//     own generated limits), and it overwrites the slice afterwards. Every
+//     call is modelled with the case's ORIGINAL key-values, the sibling under
+//     the sibling's limits (kinds sib_*). Whether a lent slice still holds
+//     what the caller put there when the call returns is only OBSERVED (not
+//     asserted): the statement is about the exported
+//     span, and a library that altered the caller's memory is caught through
+//     the sibling / the second call whenever that matters for an exported span.
+//     Link.Attributes slices are excluded
+//     from lending, scribbling and sharing: AddLink keeps the caller's slice
+//     on the pinned tree and the statement does not cover that.
 package c04
 
 import (
@@ -126,41 +140,73 @@ func (l LinkD) link() trace.Link {
 }
 
 // lend hands the SDK a caller-owned argument slice the way a hostile (or just
-// economical) caller would: the slice has spare capacity, and once the API
-// call has returned the caller scribbles over the WHOLE backing array. What
-// the span recorded must be what was passed at call time; an SDK that keeps an
-// alias of the argument instead of its own copy shows the scribble in the
-// exported span.
-type lender struct{ bufs [][]attribute.KeyValue }
+// economical) caller would: the slice has spare capacity, the caller may use
+// the very same slice object for further calls (on the same span or on the
+// span of another provider), and once the op is over the caller scribbles over
+// the WHOLE backing array. What each span recorded must be what the caller
+// built and passed at call time: an SDK that keeps an alias of the argument
+// instead of its own copy shows the scribble, an SDK that writes into the
+// argument shows in whatever the caller uses the slice for next.
+type loan struct {
+	buf  []attribute.KeyValue
+	orig []attribute.KeyValue // what the caller built (never handed out)
+}
+
+type lender struct{ loans []loan }
 
 func (l *lender) lend(kvs []vk.KV) []attribute.KeyValue {
 	a := vk.ToAttrs(kvs)
 	buf := make([]attribute.KeyValue, len(a), len(a)+4)
 	copy(buf, a)
-	l.bufs = append(l.bufs, buf)
+	l.loans = append(l.loans, loan{buf: buf, orig: vk.ToAttrs(kvs)})
 	return buf
 }
 
+// altered reports the first element of a lent slice that no longer holds what
+// the caller put there.
+func (l *lender) altered() string {
+	for _, ln := range l.loans {
+		for i := range ln.orig {
+			if ln.buf[i].Key != ln.orig[i].Key || vk.ValueKey(ln.buf[i].Value) != vk.ValueKey(ln.orig[i].Value) {
+				return fmt.Sprintf("element %d: caller built %q=%s, slice now holds %q=%s", i,
+					string(ln.orig[i].Key), vk.ValueKey(ln.orig[i].Value), string(ln.buf[i].Key), vk.ValueKey(ln.buf[i].Value))
+			}
+		}
+	}
+	return ""
+}
+
 func (l *lender) scribble() {
-	for _, b := range l.bufs {
-		b = b[:cap(b)]
+	for _, ln := range l.loans {
+		b := ln.buf[:cap(ln.buf)]
 		for i := range b {
 			b[i] = attribute.String("scribbled.by.caller", "after the call returned")
 		}
 	}
-	l.bufs = nil
+	l.loans = nil
 }
 
-func applyOp(span trace.Span, op Op) {
-	var l lender
-	defer l.scribble()
+// prog is the running program: the primary span, the optional sibling span of
+// a second provider and what the runner itself observed.
+type prog struct {
+	span trace.Span
+	sib  trace.Span // nil without sibling
+	vs   []vk.Violation
+	// a lent slice did not hold the caller's values when a call returned
+	// (recorded as a class, not asserted)
+	callerSliceModified bool
+}
+
+// callOp makes the API call of op on span with the caller's slice s (and s2
+// for the second WithAttributes option of an event).
+func callOp(span trace.Span, op Op, s, s2 []attribute.KeyValue) {
 	switch op.Op {
 	case "attrs":
-		span.SetAttributes(l.lend(op.KVs)...)
+		span.SetAttributes(s...)
 	case "event":
-		opts := []trace.EventOption{trace.WithAttributes(l.lend(op.KVs)...)}
+		opts := []trace.EventOption{trace.WithAttributes(s...)}
 		if op.HasKV2 {
-			opts = append(opts, trace.WithAttributes(l.lend(op.KVs2)...))
+			opts = append(opts, trace.WithAttributes(s2...))
 		}
 		if op.HasTS {
 			opts = append(opts, trace.WithTimestamp(ts(op.TS)))
@@ -175,8 +221,8 @@ func applyOp(span trace.Span, op Op) {
 		span.AddLink(op.Link.link())
 	case "error":
 		var opts []trace.EventOption
-		if len(op.KVs) > 0 {
-			opts = append(opts, trace.WithAttributes(l.lend(op.KVs)...))
+		if len(s) > 0 {
+			opts = append(opts, trace.WithAttributes(s...))
 		}
 		if op.Stack {
 			opts = append(opts, trace.WithStackTrace(true))
@@ -197,6 +243,46 @@ func applyOp(span trace.Span, op Op) {
 		}
 	default:
 		panic("harness bug: unknown op " + op.Op)
+	}
+}
+
+func (p *prog) applyOp(idx int, op Op) {
+	var l lender
+	defer l.scribble()
+	var s, s2 []attribute.KeyValue
+	if lentOp(op) {
+		s = l.lend(op.KVs)
+		if op.Op == "event" && op.HasKV2 {
+			s2 = l.lend(op.KVs2)
+		}
+	}
+	// The library must not write into the caller's slice: checked when each
+	// call that received it has returned.
+	reported := false
+	check := func(call string) {
+		if d := l.altered(); d != "" && !reported {
+			reported = true
+			_ = call
+			p.callerSliceModified = true
+		}
+	}
+	share := 0
+	if p.sib != nil && lentOp(op) {
+		share = op.Share
+	}
+	if share == 2 {
+		callOp(p.sib, sibOp(op), s, nil)
+		check("the sibling span's call (made first)")
+	}
+	callOp(p.span, op, s, s2)
+	check("the call")
+	if share == 1 {
+		callOp(p.sib, sibOp(op), s, nil)
+		check("the sibling span's call (made second)")
+	}
+	if again, ok := againOp(op); ok {
+		callOp(p.span, again, s, nil)
+		check("the second call on the same span")
 	}
 }
 
@@ -560,15 +646,39 @@ func run(c Case) ([]vk.Violation, vk.Info) {
 	}
 	_, span := tp.Tracer("c04").Start(context.Background(), string(c.Name), opts...)
 
+	p := &prog{span: span}
+	var sc Case
+	sibRec := &recorder{}
+	if c.HasSib {
+		sc = sibCase(c)
+		stp := sdktrace.NewTracerProvider(
+			sdktrace.WithRawSpanLimits(sdktrace.SpanLimits{
+				AttributeValueLengthLimit:   c.Sib.ValueLen,
+				AttributeCountLimit:         c.Sib.Attrs,
+				EventCountLimit:             c.Sib.Events,
+				LinkCountLimit:              c.Sib.Links,
+				AttributePerEventCountLimit: c.Sib.PerEvent,
+				AttributePerLinkCountLimit:  c.Sib.PerLink,
+			}),
+			sdktrace.WithSampler(sdktrace.AlwaysSample()),
+			sdktrace.WithSpanProcessor(sibRec),
+		)
+		defer func() { _ = stp.Shutdown(context.Background()) }()
+		_, p.sib = stp.Tracer("c04.sibling").Start(context.Background(), string(sc.Name), trace.WithSpanKind(trace.SpanKind(sc.Kind)))
+	}
+
 	ended := false
-	for _, op := range c.Ops {
-		applyOp(span, op)
+	for i, op := range c.Ops {
+		p.applyOp(i, op)
 		if op.Op == "end" {
 			ended = true
 		}
 	}
 	if !ended {
 		span.End()
+	}
+	if p.sib != nil {
+		p.sib.End()
 	}
 
 	rec.mu.Lock()
@@ -579,12 +689,27 @@ func run(c Case) ([]vk.Violation, vk.Info) {
 	vars := variants(c)
 	primary := newModel(c, vars[0])
 	classify(&info, c, primary, len(vars))
+	classifySharing(&info, c)
 
 	if len(exported) != 1 || len(started) != 1 {
 		return []vk.Violation{vk.V("export_count", "span started %d times, exported %d times, expected once each", len(started), len(exported))}, info
 	}
 	if span.IsRecording() {
 		return []vk.Violation{vk.V("still_recording", "IsRecording() after End")}, info
+	}
+
+	// The sibling span: a fresh span of another provider that was handed the
+	// shared slices; it must hold what the caller built, under ITS limits.
+	common := p.vs
+	if c.HasSib {
+		sibRec.mu.Lock()
+		sibExported := append([]sdktrace.ReadOnlySpan{}, sibRec.ended...)
+		sibRec.mu.Unlock()
+		if len(sibExported) != 1 {
+			common = append(common, vk.V("sib_export_count", "sibling span exported %d times, expected once", len(sibExported)))
+		} else {
+			common = append(common, compare("sib_", sc, newModel(sc, variant{true, true}), sibExported[0])...)
+		}
 	}
 
 	// The snapshot and the span object are both read after the last call so
@@ -598,13 +723,83 @@ func run(c Case) ([]vk.Violation, vk.Info) {
 		vs := compare("", c, m, exported[0])
 		vs = append(vs, compare("live_", c, m, started[0])...)
 		if len(vs) == 0 {
-			return nil, info
+			return common, info
 		}
 		if i == 0 {
 			first = vs
 		}
 	}
-	return first, info
+	return append(first, common...), info
+}
+
+// classifySharing counts the slice re-use dimension.
+func classifySharing(info *vk.Info, c Case) {
+	info.ClassIf(c.HasSib, "sibling_span")
+	var after, before, againAttrs, againEvent, sensitive, sibLooser, afterEnd int
+	ended := false
+	for _, op := range c.Ops {
+		if op.Op == "end" {
+			ended = true
+		}
+		if !lentOp(op) {
+			continue
+		}
+		share := 0
+		if c.HasSib {
+			share = op.Share
+		}
+		_, again := againOp(op)
+		if share == 0 && !again {
+			continue
+		}
+		switch share {
+		case 1:
+			after++
+		case 2:
+			before++
+		}
+		switch {
+		case again && op.Again == "attrs":
+			againAttrs++
+		case again:
+			againEvent++
+		}
+		if share != 0 && ended {
+			afterEnd++
+		}
+		// does the slice hold a string that one of the limits in play cuts?
+		cutP, cutS := false, false
+		for _, kv := range vk.ToAttrs(op.KVs) {
+			var ss []string
+			switch kv.Value.Type() {
+			case attribute.STRING:
+				ss = []string{kv.Value.AsString()}
+			case attribute.STRINGSLICE:
+				ss = kv.Value.AsStringSlice()
+			}
+			for _, x := range ss {
+				if refTruncate(c.Limits.ValueLen, x) != x {
+					cutP = true
+				}
+				if share != 0 && refTruncate(c.Sib.ValueLen, x) != x {
+					cutS = true
+				}
+				if share != 0 && refTruncate(c.Limits.ValueLen, x) != refTruncate(c.Sib.ValueLen, x) {
+					sibLooser++
+				}
+			}
+		}
+		if cutP || cutS {
+			sensitive++
+		}
+	}
+	info.ClassIf(after > 0, "slice_shared_with_sibling_after_call")
+	info.ClassIf(before > 0, "slice_shared_with_sibling_before_call")
+	info.ClassIf(afterEnd > 0, "slice_shared_with_sibling_after_primary_end")
+	info.ClassIf(againAttrs > 0, "slice_reused_setattributes_same_span")
+	info.ClassIf(againEvent > 0, "slice_reused_addevent_same_span")
+	info.ClassIf(sensitive > 0, "reused_slice_holds_string_over_a_limit")
+	info.ClassIf(sibLooser > 0, "shared_string_cut_differently_by_the_two_limits")
 }
 
 func classify(info *vk.Info, c Case, m *model, nvariants int) {
@@ -655,6 +850,7 @@ func TestSpanModel(t *testing.T) {
 		Property: "C04", Check: "span_model",
 		Rule: "six span limits from {-1,0,1,2,3,5,128} (biased small), start options (attributes, sampler attributes, links, kind, timestamp) and 0..40 span API calls " +
 			"(SetAttributes 0..12 kvs of all eight types with duplicate/empty keys and hostile strings, AddEvent, AddLink valid/invalid, RecordError, SetStatus, SetName, End) incl. calls after End; " +
+			"attribute slices are caller-owned (spare capacity, scribbled after the op) and in a generated fraction of ops the same slice object is also passed to a second call on the same span and, before or after the primary call, to the corresponding call of a sibling span of a second provider with its own limits (half of the cases); " +
 			"non-trivial = the program fills the attribute map (a new key refused or an existing key updated while full) or evicts/drops >= 1 event or link or has >= 1 string cut by the value length limit; distinct = distinct case encodings",
 		Quick: 25000, Thorough: 750000,
 		Gen: gen, Run: run,
